@@ -173,6 +173,10 @@ def rule_fwd(env, shared):
                     if cb is not None:
                         cctx = env.ctx(cb, sadt, None)
                         ps = _payload_shape(unref(ev.local(cctx, 0)), cands)
+                        if not ps:
+                            # (a closure of a small helper the adaptor hands the result to — `Self::copy_out(inner.get(i))`
+                            #  with `copy_out(r) = r.map(|x| *x)` —: applied to the inner payload)
+                            ps = _payload_shape(unref(ev.closure_ret(ctx, clo, [pay])), cands)
                         if ps:
                             shape = "option:" + ps
             elif b.locals[0]["ty"]["s"].replace("core::", "std::").startswith("std::option::Option<"):
